@@ -64,6 +64,14 @@ struct SpyStorage : cppcms::sessions::session_storage {
 	void remove(std::string const &sid) override { OpScope os; Mut mu; note(sid); inner->remove(sid); simk::TsanIgnore ign; live->erase(sid); }
 	bool is_blocking() override { return inner->is_blocking(); }
 };
+// a plug-in storage of the simplest kind the interface allows (session_pool::storage(), session.server.storage = external): it keeps the row and reports its
+// deadline - enforcing the deadline is not asked of a storage (cppcms/session_storage.h), the framework has to do it
+struct PlainStorage : cppcms::sessions::session_storage { std::map<std::string,std::pair<time_t,std::string>> rows; std::mutex m;
+	void save(std::string const &sid,time_t timeout,std::string const &in) override { std::lock_guard<std::mutex> g(m); rows[sid] = std::make_pair(timeout,in); }
+	bool load(std::string const &sid,time_t &timeout,std::string &out) override { std::lock_guard<std::mutex> g(m); auto p = rows.find(sid); if(p == rows.end()) return false; timeout = p->second.first; out = p->second.second; return true; }
+	void remove(std::string const &sid) override { std::lock_guard<std::mutex> g(m); rows.erase(sid); }
+	bool is_blocking() override { return false; } };
+struct PlainFactory : cppcms::sessions::session_storage_factory { booster::shared_ptr<PlainStorage> st{new PlainStorage}; booster::shared_ptr<cppcms::sessions::session_storage> get() override { return st; } bool requires_gc() override { return false; } void gc_job() override {} };
 struct SpyFactory : cppcms::sessions::session_storage_factory {
 	std::unique_ptr<cppcms::sessions::session_storage_factory> inner; booster::shared_ptr<SpyStorage> spy;
 	booster::shared_ptr<cppcms::sessions::session_storage> get() override { return spy; }
@@ -90,7 +98,8 @@ struct E5 : Engine {
 		J p = J::obj(); p["engine"] = "E5"; p["prop"] = prop; p["fault_seed"] = (unsigned long long)(r.next() >> 8); p["sched_seed"] = (unsigned long long)(r.next() >> 8);
 		static const char *encs[] = {"hmac","hmac-md5","hmac-sha1","hmac-sha224","hmac-sha256","hmac-sha384","hmac-sha512","aes","aes128","aes192","aes256","split-sha1","split-sha256"};
 		if(prop == "C05"){
-			p["enc"] = encs[r.below(13)]; p["key_seed"] = (int)r.below(1000); p["key_case"] = (int)r.below(3); p["timeout"] = 10 + (int)r.below(3000);
+			if(r.below(4) == 0){ p["key_file"] = 1; if(r.below(2)) p["key_file_short"] = 2 * (int)r.below(16); }
+			p["enc"] = encs[r.below(13)]; p["key_seed"] = (int)r.below(1000); p["key_case"] = (int)r.below(3); p["grouping_locale"] = (int)(r.below(5) == 0); p["timeout"] = 10 + (int)r.below(3000);
 			if(r.below(6) == 0){ J uf = J::arr(); int n = 1 + (int)r.below(3); for(int k=0;k<n;k++) uf.push((int)r.below(r.below(2) ? 4 : 30)); p["urandom_fail"] = uf; }   // no entropy: open("/dev/urandom") fails at these calls (descriptor exhaustion)
 			p["strategy"] = (int)r.below(3); p["pct_depth"] = 1 + (int)r.below(3); p["pct_len"] = 20 + (int)r.below(400);
 			if(r.below(4) == 0) p["reuse"] = 1;   // one long-lived session_interface re-targeted with set_cookie_adapter_and_reload(): what an accepted cookie loaded must be gone when the next one is rejected
@@ -112,8 +121,8 @@ struct E5 : Engine {
 			return p;
 		}
 		// C06
-		static const char *locs[] = {"client","server","both"}; static const char *exps[] = {"fixed","renew","browser"}; static const char *stors[] = {"memory","files","memory","files","network"};
-		p["location"] = locs[r.below(3)]; p["expire"] = exps[r.below(3)]; p["storage"] = stors[r.below(5)]; p["enc"] = encs[r.below(13)]; p["key_seed"] = (int)r.below(1000);
+		static const char *locs[] = {"client","server","both"}; static const char *exps[] = {"fixed","renew","browser"}; static const char *stors[] = {"memory","files","memory","files","network"}; /* "plain": see PlainStorage */
+		p["location"] = locs[r.below(3)]; p["expire"] = exps[r.below(3)]; p["storage"] = r.below(7) == 0 ? "plain" : stors[r.below(5)]; p["enc"] = encs[r.below(13)]; p["key_seed"] = (int)r.below(1000); p["key_case"] = (int)r.below(3); p["grouping_locale"] = (int)(r.below(5) == 0);
 		p["timeout"] = 5 + (int)r.below(r.below(2) ? 40 : 4000); p["client_size_limit"] = (int)(r.below(2) ? 30 + r.below(200) : 2048); p["remove_unknown"] = (int)r.below(2);
 		p["p_file_short"] = r.below(4) == 0 ? (int)r.below(300) : 0; p["p_file_eintr"] = r.below(4) == 0 ? (int)r.below(100) : 0;
 		bool net_faults = p.gets("storage") == "network" && r.below(2);   // resets of the storage connection, at most one per request (sequential plans only)
@@ -196,7 +205,16 @@ struct E5 : Engine {
 	void run_c05(const J &plan,RunResult &res,std::map<std::string,int64_t> &cnt){
 		cppcms::json::value v = settings(plan,"client"); v["session"]["expire"] = "fixed";
 		std::string enc = norm_enc(plan.gets("enc","hmac"));
-		cppcms::session_pool pool(v); pool.init();
+		/* key material kept in files (session.client.key_file / hmac_key_file / cbc_key_file, the way cppcms_make_key delivers it), optionally with a read that comes back short: the node must refuse to start, never run with a part of the key */
+		cppcms::json::value v_inline = v;   /* the other servers of the attacks (another key, another algorithm) are configured with inline keys of their own: a copy taken after the key files were put in would read THIS server's files (a *_file entry wins over the inline key) */
+		std::vector<std::string> key_files; struct Unlinker { std::vector<std::string> *v; ~Unlinker(){ for(auto &f:*v) ::unlink(f.c_str()); } } unlinker{&key_files};
+		if(plan.geti("key_file")){ for(const char *nm:{"key","hmac_key","cbc_key"}){ std::string txt = v.get(std::string("session.client.") + nm,std::string()); if(txt.empty()) continue; std::string path = runner::g_scratch + "/keyfile." + nm; { std::ofstream kf(path.c_str()); kf << txt; } key_files.push_back(path);
+				cppcms::json::value none; v["session"]["client"][nm] = none; v["session"]["client"][std::string(nm) + "_file"] = path; } cnt["key_file_runs"]++; }
+		std::unique_ptr<cppcms::session_pool> pool_holder;
+		try { pool_holder.reset(new cppcms::session_pool(v)); pool_holder->init(); }
+		catch(std::exception const &e){ if(simk::stats().fread_short){ cnt["start_refused_after_short_key_read"]++; return; } throw; }
+		cppcms::session_pool &pool = *pool_holder;
+		if(simk::stats().fread_short) cnt["started_after_short_key_read"]++;
 		if(plan.has("poolrace")){
 			// worker threads of one process share the pool: each serves its own browser (own jar, own session_interface); the only shared object is the code under test
 			int nt = (int)std::max<int64_t>(2,std::min<int64_t>(plan.geti("poolrace"),6)); size_t len = (size_t)std::max<int64_t>(0,std::min<int64_t>(plan.geti("len"),5000));
@@ -216,7 +234,7 @@ struct E5 : Engine {
 				if(!w.back){ res.fail("save-load-mismatch",where + ": the session saved through a pool shared with " + std::to_string(nt-1) + " other workers did not load back"); break; } }
 			return; }
 		// a second server with other key material / another algorithm (cross-key transplant)
-		cppcms::json::value v2 = v; configure_enc(v2,enc,(int)plan.geti("key_seed") + 17); cppcms::session_pool pool_otherkey(v2); pool_otherkey.init();
+		cppcms::json::value v2 = v_inline; configure_enc(v2,enc,(int)plan.geti("key_seed") + 17); cppcms::session_pool pool_otherkey(v2); pool_otherkey.init();
 		cppcms::json::value v3 = v; { cppcms::json::value c; v3["session"]["client"] = c; configure_enc(v3,enc.compare(0,4,"hmac") == 0 ? "aes" : "hmac-sha256",(int)plan.geti("key_seed")); } cppcms::session_pool pool_otheralgo(v3); pool_otheralgo.init();
 		bool encrypting = enc.compare(0,3,"aes") == 0 || enc.compare(0,5,"split") == 0;
 		Jar jar; std::vector<Issued> issued; std::string last_payload; int64_t timeout = v.get<int>("session.timeout");
@@ -399,6 +417,7 @@ struct E5 : Engine {
 				std::vector<std::string> ips(1,"127.0.0.1"); std::vector<int> ports(1,6101);
 				if(plan.geti("net_servers") == 2){ booster::shared_ptr<cppcms::sessions::session_storage_factory> backend2(new cppcms::sessions::session_memory_storage_factory()); net_server2.reset(new cppcms::impl::tcp_cache_service(booster::intrusive_ptr<cppcms::impl::base_cache>(),backend2,1,"127.0.0.1",6102,1000000)); ips.push_back("127.0.0.1"); ports.push_back(6102); cnt["two_session_servers_runs"]++; }
 				f->inner.reset(new cppcms::sessions::tcp_factory(ips,ports)); cnt["network_storage_runs"]++; }
+			else if(stor == "plain"){ f->inner.reset(new PlainFactory); cnt["plain_plugin_storage_runs"]++; }
 			else f->inner.reset(new cppcms::sessions::session_memory_storage_factory());
 			f->spy.reset(new SpyStorage); f->spy->inner = f->inner->get(); f->spy->bad = &bad_sids; f->spy->live = &live_sids; f->spy->calls = &storage_calls; spyf = f.get();
 			pool.storage(std::unique_ptr<cppcms::sessions::session_storage_factory>(f.release())); }
@@ -552,7 +571,11 @@ struct E5 : Engine {
 		sp.strategy = (int)(((plan.geti("strategy") % 3) + 3) % 3); sp.pct_depth = (int)std::max<int64_t>(1,std::min<int64_t>(plan.geti("pct_depth",2),8)); sp.pct_len = (int)std::max<int64_t>(1,plan.geti("pct_len",500)); sp.text_trace = plan.geti("text_trace");
 		sp.p_file_short = (unsigned)std::max<int64_t>(0,std::min<int64_t>(plan.geti("p_file_short"),900)); sp.p_file_eintr = (unsigned)std::max<int64_t>(0,std::min<int64_t>(plan.geti("p_file_eintr"),500)); sp.file_short_min = 2;
 		if(plan.has("chan_cap")) sp.default_chan_cap = (size_t)std::max<int64_t>(1,std::min<int64_t>(plan.geti("chan_cap"),1<<20)); sp.p_short_read = sp.p_short_write = (unsigned)std::max<int64_t>(0,std::min<int64_t>(plan.geti("p_short_io"),900));
+		if(plan.geti("key_file") && plan.has("key_file_short")){ sp.stdio_track = "keyfile."; sp.fread_short_bytes = (size_t)std::max<int64_t>(0,std::min<int64_t>(plan.geti("key_file_short"),200)); }
 		{ const J &uf = plan.get("urandom_fail"); for(size_t k=0;k<uf.size() && k<8;k++) sp.urandom_fail_at.push_back((uint32_t)std::max<int64_t>(0,std::min<int64_t>(uf.a[k].as_int(),100000))); }
+		/* an application that has installed a process-wide locale which groups digits (std::locale::global(std::locale("en_US.UTF-8")) does): numbers cppcms writes into cookies and session data must not change with it */
+		struct Grouping : std::numpunct<char> { char do_thousands_sep() const override { return ','; } std::string do_grouping() const override { return "\3"; } };
+		struct LocaleGuard { bool on; LocaleGuard(bool o) : on(o) { if(on) std::locale::global(std::locale(std::locale::classic(),new Grouping)); } ~LocaleGuard(){ if(on) std::locale::global(std::locale::classic()); } } locale_guard(plan.geti("grouping_locale") != 0);
 		simk::begin(sp);
 		try { if(plan.gets("prop") == "C05") run_c05(plan,res,cnt); else if(plan.geti("capi")) run_capi(plan,res,cnt); else run_c06(plan,res,cnt); }
 		catch(std::exception const &e){ res.fail("harness-or-library-exception",std::string("unexpected exception: ") + e.what()); }
